@@ -1,28 +1,43 @@
-// Command links is the correspondence engine for C04 and C06: it drives the REAL
-// transport_controller.Controller (on a real controller bus with a peer controller) through a
-// fake transport and fake links, and compares the link tables, GetPeerLinks, the values of
-// EstablishLinkWithPeer directives and the set of closed links with the Lean model after every
-// history.
+// Command links is the correspondence engine for C04 and C06: it drives REAL
+// transport_controller.Controllers (one or two of them, each with its own identity and fake
+// transport, on one real controller bus with peer controllers) through fake links, and
+// compares the link tables, GetPeerLinks, the values of EstablishLinkWithPeer directives and
+// the set of closed links with the Lean model.
+//
+// Sequential histories: every op is issued from one goroutine and awaited (per-operation
+// completion hook). Concurrent batches: up to 6 ops fired from several goroutines without a
+// barrier (a goroutine awaits only its own previous op); the observed tables must be the
+// model's result for SOME interleaving that keeps the per-goroutine order (driver op
+// links.linearize) and for THE interleaving the critical sections actually ran in (the hook
+// fires inside the lock). Built with -race: a race report is a disagreement.
 package main
 
 import (
 	"context"
 	"fmt"
 	"io"
+	"os"
+	"os/exec"
+	"path/filepath"
+	"runtime"
 	"sort"
 	"strconv"
 	"strings"
 	"sync"
+	"sync/atomic"
 	"time"
 
 	"github.com/aperturerobotics/bifrost/crypto"
 	"github.com/aperturerobotics/bifrost/link"
 	"github.com/aperturerobotics/bifrost/peer"
+	peer_controller "github.com/aperturerobotics/bifrost/peer/controller"
 	"github.com/aperturerobotics/bifrost/stream"
 	"github.com/aperturerobotics/bifrost/testbed"
 	"github.com/aperturerobotics/bifrost/transport"
 	transport_controller "github.com/aperturerobotics/bifrost/transport/controller"
+	"github.com/aperturerobotics/controllerbus/bus"
 	"github.com/aperturerobotics/controllerbus/controller"
+	"github.com/aperturerobotics/controllerbus/controller/resolver"
 	"github.com/aperturerobotics/controllerbus/directive"
 	"github.com/blang/semver/v4"
 	"github.com/sirupsen/logrus"
@@ -30,9 +45,19 @@ import (
 	"verif/harness/lib"
 )
 
+// peer indices: 0 = unspecified, 1 = identity of controller A, 2,3 = remote peers,
+// 4 = identity of controller B (a second transport on the same bus).
+const (
+	peerA = 1
+	peerB = 4
+)
+
+const opTimeout = 20 * time.Second
+
 type fakeLink struct {
 	id            int
-	uuid          uint64
+	ctl           int // index of the controller (transport) this link belongs to
+	uuid          atomic.Uint64
 	local, remote peer.ID
 	mtx           sync.Mutex
 	closed        bool
@@ -40,11 +65,15 @@ type fakeLink struct {
 	opens         int
 }
 
-func newFakeLink(id int, uuid uint64, local, remote peer.ID) *fakeLink {
-	return &fakeLink{id: id, uuid: uuid, local: local, remote: remote, closeCh: make(chan struct{})}
+func newFakeLink(id, ctl int, uuid uint64, local, remote peer.ID) *fakeLink {
+	f := &fakeLink{id: id, ctl: ctl, local: local, remote: remote, closeCh: make(chan struct{})}
+	f.uuid.Store(uuid)
+	return f
 }
-func (f *fakeLink) GetUUID() uint64                                 { return f.uuid }
-func (f *fakeLink) GetTransportUUID() uint64                        { return 99 }
+
+// GetUUID is NOT constant: a "reuuid" op of a history changes it after establishment.
+func (f *fakeLink) GetUUID() uint64          { return f.uuid.Load() }
+func (f *fakeLink) GetTransportUUID() uint64 { return 99 + uint64(f.ctl) }
 func (f *fakeLink) OpenStream(stream.OpenOpts) (stream.Stream, error) {
 	f.mtx.Lock()
 	f.opens++
@@ -56,9 +85,9 @@ func (f *fakeLink) AcceptStream() (stream.Stream, stream.OpenOpts, error) {
 	<-f.closeCh
 	return nil, stream.OpenOpts{}, io.EOF
 }
-func (f *fakeLink) GetRemotePeer() peer.ID          { return f.remote }
-func (f *fakeLink) GetLocalPeer() peer.ID           { return f.local }
-func (f *fakeLink) GetRemoteTransportUUID() uint64  { return 98 }
+func (f *fakeLink) GetRemotePeer() peer.ID         { return f.remote }
+func (f *fakeLink) GetLocalPeer() peer.ID          { return f.local }
+func (f *fakeLink) GetRemoteTransportUUID() uint64 { return 98 }
 func (f *fakeLink) Close() error {
 	f.mtx.Lock()
 	if !f.closed {
@@ -71,31 +100,59 @@ func (f *fakeLink) Close() error {
 func (f *fakeLink) isClosed() bool { f.mtx.Lock(); defer f.mtx.Unlock(); return f.closed }
 
 type fakeTransport struct {
-	pid peer.ID
+	pid  peer.ID
+	uuid uint64
 }
 
 func (t *fakeTransport) Execute(ctx context.Context) error { <-ctx.Done(); return nil }
-func (t *fakeTransport) GetUUID() uint64                   { return 99 }
+func (t *fakeTransport) GetUUID() uint64                   { return t.uuid }
 func (t *fakeTransport) GetPeerID() peer.ID                { return t.pid }
 func (t *fakeTransport) Close() error                      { return nil }
 
-// observer tracks the current values of one EstablishLinkWithPeer directive.
+// observer tracks the values of one EstablishLinkWithPeer directive. The value monitor is
+// evaluated in HandleValueAdded, i.e. for EVERY value ever emitted (a wrong value that is
+// retracted before quiescence is still seen).
 type observer struct {
-	mtx  sync.Mutex
-	vals map[uint32]link.MountedLink
-	bad  string
-	src  int
-	dst  int
-	ref  directive.Reference
+	mtx     sync.Mutex
+	vals    map[uint32]link.MountedLink
+	bad     string
+	everBad string
+	emitted int
+	src     int
+	dst     int
+	srcID   peer.ID
+	dstID   peer.ID
+	ref     directive.Reference
+}
+
+// valueVerdict states C04 on one yielded value using only the value itself and the request.
+func (o *observer) valueVerdict(ml link.MountedLink) string {
+	if ml.GetRemotePeer() != o.dstID {
+		return "link to " + ml.GetRemotePeer().String() + " yielded for a request to peer " + strconv.Itoa(o.dst)
+	}
+	if o.src != 0 && ml.GetLocalPeer() != o.srcID {
+		return "link whose local peer is " + ml.GetLocalPeer().String() + " yielded for a request from peer " + strconv.Itoa(o.src)
+	}
+	if ml.GetRemotePeer() == ml.GetLocalPeer() {
+		return "a link to the local peer itself was yielded"
+	}
+	return ""
 }
 
 func (o *observer) HandleValueAdded(_ directive.Instance, v directive.AttachedValue) {
 	ml, ok := v.GetValue().(link.MountedLink)
 	o.mtx.Lock()
+	o.emitted++
 	if !ok {
 		o.bad = "value is not a MountedLink"
+		if o.everBad == "" {
+			o.everBad = o.bad
+		}
 	} else {
 		o.vals[v.GetValueID()] = ml
+		if vd := o.valueVerdict(ml); vd != "" && o.everBad == "" {
+			o.everBad = vd + " (emitted value, request " + strconv.Itoa(o.src) + "->" + strconv.Itoa(o.dst) + ")"
+		}
 	}
 	o.mtx.Unlock()
 }
@@ -106,14 +163,27 @@ func (o *observer) HandleValueRemoved(_ directive.Instance, v directive.Attached
 }
 func (o *observer) HandleInstanceDisposed(directive.Instance) {}
 
+// op is one step of a history.
+//
+//	start / shutdown   of controller c (start after shutdown = the controller is executed again)
+//	est / lost         HandleLinkEstablished / HandleLinkLost of link id on controller c
+//	reuuid             the link object's GetUUID starts returning uuid (no controller call)
+//	batch              per-goroutine sequences of est/lost fired concurrently
 type op struct {
-	kind string
-	id   int
-	uuid uint64
-	rem  int
-	lp   int
+	kind  string
+	c     int
+	id    int
+	uuid  uint64
+	rem   int
+	lp    int
+	batch [][]op
+	// gate (batch only): the controller lock is held (by the completion hook of a no-op loss
+	// report) while the goroutines deliver their first events, so that all of them queue up
+	// behind the lock before any critical section of the batch runs.
+	gate bool
 }
 
+// String is the model-level (wire) form of a sequential est/lost/start/shutdown op.
 func (o op) String() string {
 	switch o.kind {
 	case "start":
@@ -124,12 +194,58 @@ func (o op) String() string {
 	return fmt.Sprintf("%s:%d:%d:%d", o.kind, o.id, o.uuid, o.rem)
 }
 
+// describe is the human-readable form used in monitor messages (names the controller).
+func describe(ops []op) string {
+	var ss []string
+	for _, o := range ops {
+		switch o.kind {
+		case "batch":
+			var gs []string
+			for _, g := range o.batch {
+				var s []string
+				for _, x := range g {
+					s = append(s, x.String())
+				}
+				gs = append(gs, strings.Join(s, ","))
+			}
+			pfx := ""
+			if o.gate {
+				pfx = "gated"
+			}
+			ss = append(ss, pfx+"{"+strings.Join(gs, " || ")+"}")
+		case "reuuid":
+			ss = append(ss, fmt.Sprintf("reuuid:%d:%d", o.id, o.uuid))
+		default:
+			s := o.String()
+			if o.c != 0 {
+				s = "B." + s
+			}
+			ss = append(ss, s)
+		}
+	}
+	return strings.Join(ss, ",")
+}
+
 type engine struct {
-	a   *lib.Args
-	rng *lib.Rng
-	m   *lib.Model
-	rep *lib.Report
-	le  *logrus.Entry
+	a        *lib.Args
+	rng      *lib.Rng
+	m        *lib.Model
+	rep      *lib.Report
+	le       *logrus.Entry
+	rec      atomic.Pointer[recorder]
+	raceLog  string
+	raceOff  int64
+	progress string
+}
+
+// patience is how long a poll waits for the asynchronous parts (Close goroutines, directive
+// resolvers) to settle; once a run has disagreements it is cut so that a broken tree is
+// reported quickly.
+func (e *engine) patience() time.Duration {
+	if len(e.rep.Disagreements) >= 2 {
+		return 300 * time.Millisecond
+	}
+	return 5 * time.Second
 }
 
 func idsOf(m map[int]bool) string {
@@ -137,6 +253,12 @@ func idsOf(m map[int]bool) string {
 	for k := range m {
 		l = append(l, k)
 	}
+	return idList(l)
+}
+
+// idList prints a sorted id list keeping multiplicities ("_" = empty).
+func idList(l []int) string {
+	l = append([]int(nil), l...)
 	sort.Ints(l)
 	if len(l) == 0 {
 		return "_"
@@ -148,9 +270,641 @@ func idsOf(m map[int]bool) string {
 	return strings.Join(s, ",")
 }
 
-// runHistory executes one history against a fresh controller and returns the canonical
-// observation plus the monitor verdict.
+func opStrings(ops []op) string {
+	if len(ops) == 0 {
+		return "_"
+	}
+	ss := make([]string, len(ops))
+	for i, o := range ops {
+		ss[i] = o.String()
+	}
+	return strings.Join(ss, ",")
+}
+
+// ---------------------------------------------------------------------------------------
+// completion / order recorder (fed by the verif hook, which runs inside the controller lock)
+
+type evKey struct {
+	kind string
+	l    *fakeLink
+}
+
+type recorder struct {
+	mtx     sync.Mutex
+	trace   []evKey
+	waiters map[evKey][]chan struct{}
+	gates   map[*fakeLink]*gate
+}
+
+// gate makes the completion hook of one (no-op) event block INSIDE the controller lock.
+type gate struct {
+	entered chan struct{}
+	release chan struct{}
+}
+
+func (r *recorder) expect(kind string, l *fakeLink) chan struct{} {
+	ch := make(chan struct{})
+	r.mtx.Lock()
+	k := evKey{kind, l}
+	r.waiters[k] = append(r.waiters[k], ch)
+	r.mtx.Unlock()
+	return ch
+}
+
+func (r *recorder) event(kind string, l *fakeLink) {
+	r.mtx.Lock()
+	k := evKey{kind, l}
+	r.trace = append(r.trace, k)
+	if w := r.waiters[k]; len(w) != 0 {
+		close(w[0])
+		r.waiters[k] = w[1:]
+	}
+	g := r.gates[l]
+	delete(r.gates, l)
+	r.mtx.Unlock()
+	if g != nil {
+		close(g.entered)
+		<-g.release
+	}
+}
+
+func (r *recorder) addGate(l *fakeLink) *gate {
+	g := &gate{entered: make(chan struct{}), release: make(chan struct{})}
+	r.mtx.Lock()
+	r.gates[l] = g
+	r.mtx.Unlock()
+	return g
+}
+
+func (r *recorder) mark() int {
+	r.mtx.Lock()
+	defer r.mtx.Unlock()
+	return len(r.trace)
+}
+
+func (r *recorder) since(n int) []evKey {
+	r.mtx.Lock()
+	defer r.mtx.Unlock()
+	return append([]evKey(nil), r.trace[n:]...)
+}
+
+func (e *engine) onOp(kind string, lnk link.Link) {
+	fl, ok := lnk.(*fakeLink)
+	if !ok {
+		return
+	}
+	if r := e.rec.Load(); r != nil {
+		r.event(kind, fl)
+	}
+}
+
+// ---------------------------------------------------------------------------------------
+// the property stated directly: links established and not yet lost (per controller)
+
+type specResult struct {
+	live     map[int]bool
+	closed   map[int]bool
+	everLost map[int]bool
+}
+
+// replaySpec replays a history of ONE controller against the plain statement of the
+// property: the set of links established and not yet lost (a newer link with the same uuid
+// replaces - and closes - the older one; a lost link is closed; a link established while the
+// transport is down, or to the local peer itself, is closed and never entered; shutdown
+// closes everything).
+func replaySpec(ops []op) specResult {
+	live := map[int]bool{}
+	closed := map[int]bool{}
+	uu := map[int]uint64{}
+	running := false
+	lp := 0
+	everLost := map[int]bool{}
+	for _, o := range ops {
+		switch o.kind {
+		case "start":
+			if !running {
+				running = true
+				lp = o.lp
+			}
+		case "shutdown":
+			running = false
+			lp = 0
+			for id := range live {
+				closed[id] = true
+			}
+			live = map[int]bool{}
+		case "est":
+			if !running || o.rem == lp {
+				closed[o.id] = true
+				continue
+			}
+			if live[o.id] {
+				continue
+			}
+			for id := range live {
+				if uu[id] == o.uuid {
+					delete(live, id)
+					closed[id] = true
+				}
+			}
+			live[o.id] = true
+			uu[o.id] = o.uuid
+		case "lost":
+			if live[o.id] {
+				delete(live, o.id)
+				closed[o.id] = true
+			}
+			everLost[o.id] = true
+		}
+	}
+	return specResult{live, closed, everLost}
+}
+
+// merges enumerates the interleavings of gs that keep the order inside each sequence.
+func merges(gs [][]op, visit func([]op)) {
+	var cur []op
+	pos := make([]int, len(gs))
+	var rec func()
+	rec = func() {
+		done := true
+		for i := range gs {
+			if pos[i] < len(gs[i]) {
+				done = false
+				cur = append(cur, gs[i][pos[i]])
+				pos[i]++
+				rec()
+				pos[i]--
+				cur = cur[:len(cur)-1]
+			}
+		}
+		if done {
+			visit(cur)
+		}
+	}
+	rec()
+}
+
+// ---------------------------------------------------------------------------------------
+
+// ctl is one real Controller with its identity and fake transport.
+type ctl struct {
+	idx       int
+	lp        int
+	pid       peer.ID
+	ctrl      *transport_controller.Controller
+	mtx       sync.Mutex
+	handler   transport.TransportHandler
+	handlerCh chan struct{}
+	cancel    context.CancelFunc
+	done      chan struct{}
+	seq       []op // the model-level history of this controller so far (batches linearised)
+}
+
+func (c *ctl) getHandler() transport.TransportHandler {
+	c.mtx.Lock()
+	defer c.mtx.Unlock()
+	return c.handler
+}
+
+type world struct {
+	e         *engine
+	ctx       context.Context
+	tb        *testbed.Testbed
+	pids      map[int]peer.ID
+	ctls      [2]*ctl
+	links     map[int]*fakeLink
+	linksMtx  sync.Mutex
+	rec       *recorder
+	observers []*observer
+	stuck     string
+	gateSeq   int
+}
+
+func (w *world) peerOf(i int) peer.ID {
+	if i == 0 {
+		return ""
+	}
+	if p, ok := w.pids[i]; ok {
+		return p
+	}
+	return peer.ID(fmt.Sprintf("fake-remote-peer-%d", i))
+}
+
+func (w *world) getLink(o op) *fakeLink {
+	w.linksMtx.Lock()
+	defer w.linksMtx.Unlock()
+	if l, ok := w.links[o.id]; ok {
+		return l
+	}
+	l := newFakeLink(o.id, o.c, o.uuid, w.ctls[o.c].pid, w.peerOf(o.rem))
+	w.links[o.id] = l
+	return l
+}
+
+func (w *world) newCtl(idx, lp int, pid peer.ID) *ctl {
+	c := &ctl{idx: idx, lp: lp, pid: pid, handlerCh: make(chan struct{}, 4)}
+	ctor := func(cctx context.Context, le *logrus.Entry, pkey crypto.PrivKey, h transport.TransportHandler) (transport.Transport, error) {
+		c.mtx.Lock()
+		c.handler = h
+		c.mtx.Unlock()
+		c.handlerCh <- struct{}{}
+		return &fakeTransport{pid: pid, uuid: 99 + uint64(idx)}, nil
+	}
+	info := controller.NewInfo("verif/fake-transport-"+strconv.Itoa(idx), semver.MustParse("0.0.1"), "fake transport")
+	c.ctrl = transport_controller.NewController(w.e.le, w.tb.Bus, info, pid, false, ctor)
+	return c
+}
+
+func (w *world) addObservers(srcs, dsts []int) {
+	for _, src := range srcs {
+		for _, dst := range dsts {
+			ob := &observer{vals: map[uint32]link.MountedLink{}, src: src, dst: dst, srcID: w.peerOf(src), dstID: w.peerOf(dst)}
+			_, ref, err := w.tb.Bus.AddDirective(link.NewEstablishLinkWithPeer(w.peerOf(src), w.peerOf(dst)), ob)
+			if err != nil {
+				panic(err)
+			}
+			ob.ref = ref
+			w.observers = append(w.observers, ob)
+		}
+	}
+}
+
+// startCtl executes the controller (again, after a shutdown) and waits for the transport.
+func (w *world) startCtl(c *ctl) {
+	for len(c.handlerCh) > 0 {
+		<-c.handlerCh
+	}
+	cctx, cancel := context.WithCancel(w.ctx)
+	c.cancel = cancel
+	done := make(chan struct{})
+	c.done = done
+	go func() {
+		_ = w.tb.Bus.ExecuteController(cctx, c.ctrl)
+		close(done)
+	}()
+	select {
+	case <-c.handlerCh:
+	case <-time.After(opTimeout):
+		panic("controller did not construct transport")
+	}
+	if _, err := c.ctrl.GetTransport(w.ctx); err != nil {
+		panic(err)
+	}
+}
+
+func (w *world) stopCtl(c *ctl) {
+	if c.cancel == nil {
+		return
+	}
+	c.cancel()
+	select {
+	case <-c.done:
+	case <-time.After(opTimeout):
+		w.stuck = "controller did not exit"
+	}
+	c.cancel = nil
+}
+
+// issue delivers one est/lost to the real handler and waits for ITS critical section.
+func (w *world) issue(o op) {
+	c := w.ctls[o.c]
+	h := c.getHandler()
+	if h == nil {
+		return
+	}
+	fl := w.getLink(o)
+	if o.kind == "est" && c.cancel == nil {
+		// transport exited: the handler may return before its critical section (Await on a
+		// cancelled context); either way the link is closed and never entered. Not awaited:
+		// the generators use a fresh link object here.
+		h.HandleLinkEstablished(fl)
+		return
+	}
+	ch := w.rec.expect(o.kind, fl)
+	if o.kind == "est" {
+		h.HandleLinkEstablished(fl)
+	} else {
+		h.HandleLinkLost(fl)
+	}
+	select {
+	case <-ch:
+	case <-time.After(opTimeout):
+		w.stuck = "Handle" + map[string]string{"est": "LinkEstablished", "lost": "LinkLost"}[o.kind] + " critical section did not complete"
+	}
+}
+
+// tables is the canonical observation of one controller.
+type tables struct {
+	live, bypeer, closed string
+	inv                  string // invariant monitor verdict on the raw tables
+}
+
+func (t tables) String() string {
+	return fmt.Sprintf("live=%s bypeer=%s closed=%s", t.live, t.bypeer, t.closed)
+}
+func (t tables) compact() string { return t.live + ":" + t.bypeer + ":" + t.closed }
+
+func (w *world) observe(c *ctl) tables {
+	byUUID, byPeer := c.ctrl.VerifSnapshot()
+	inv := ""
+	var live []int
+	seen := map[int]bool{}
+	for _, l := range byUUID {
+		fl := l.(*fakeLink)
+		if seen[fl.id] {
+			inv = fmt.Sprintf("link %d is in the links table under two uuids", fl.id)
+		}
+		seen[fl.id] = true
+		live = append(live, fl.id)
+		if fl.ctl != c.idx {
+			inv = fmt.Sprintf("link %d of the other transport is in this controller's table", fl.id)
+		}
+		if fl.remote == c.pid {
+			inv = fmt.Sprintf("link %d to the local peer itself is in the links table", fl.id)
+		}
+	}
+	var bp []int
+	seenP := map[int]bool{}
+	for p, ls := range byPeer {
+		for _, l := range ls {
+			fl := l.(*fakeLink)
+			if seenP[fl.id] {
+				inv = fmt.Sprintf("linksByPeerID holds link %d twice", fl.id)
+			}
+			seenP[fl.id] = true
+			bp = append(bp, fl.id)
+			if fl.remote != p {
+				inv = fmt.Sprintf("link %d is in the bucket of another peer", fl.id)
+			}
+		}
+	}
+	var cl []int
+	w.linksMtx.Lock()
+	for id, l := range w.links {
+		if l.ctl == c.idx && l.isClosed() {
+			cl = append(cl, id)
+		}
+	}
+	w.linksMtx.Unlock()
+	if inv == "" && c.cancel == nil && len(live)+len(bp) != 0 {
+		inv = "the controller is not running but its tables are not empty"
+	}
+	return tables{idList(live), idList(bp), idList(cl), inv}
+}
+
+// settle polls the tables until pred accepts them or the deadline passes (Close() runs on
+// its own goroutine).
+func (w *world) settle(c *ctl, pred func(tables) bool) tables {
+	deadline := time.Now().Add(w.e.patience())
+	for {
+		t := w.observe(c)
+		if pred(t) || time.Now().After(deadline) {
+			return t
+		}
+		time.Sleep(200 * time.Microsecond)
+	}
+}
+
+// runBatch fires the per-goroutine sequences concurrently and checks the outcome.
+func (w *world) runBatch(o op) {
+	e := w.e
+	mark := w.rec.mark()
+	inBatch := map[evKey]int{}
+	for _, g := range o.batch {
+		for _, x := range g {
+			inBatch[evKey{x.kind, w.getLink(x)}]++
+		}
+	}
+	// gated batch: hold the lock of every controller the batch touches
+	var gates []*gate
+	if o.gate {
+		used := map[int]bool{}
+		for _, g := range o.batch {
+			for _, x := range g {
+				used[x.c] = true
+			}
+		}
+		for ci := range w.ctls {
+			c := w.ctls[ci]
+			if !used[ci] || c == nil || c.getHandler() == nil {
+				continue
+			}
+			w.gateSeq++
+			gop := op{kind: "lost", c: ci, id: 900 + w.gateSeq, uuid: 5, rem: 2}
+			gl := w.getLink(gop)
+			g := w.rec.addGate(gl)
+			go c.getHandler().HandleLinkLost(gl)
+			select {
+			case <-g.entered:
+			case <-time.After(opTimeout):
+				w.stuck = "gate event never reached its critical section"
+			}
+			c.seq = append(c.seq, gop) // a loss report of a link that was never established: no-op
+			gates = append(gates, g)
+		}
+	}
+	// concurrent readers: GetPeerLinks takes the controller lock over and over while the batch
+	// runs, so that HoldLockMaybeAsync often finds the lock busy and goes asynchronous
+	var hammerStop atomic.Bool
+	var hammerWg sync.WaitGroup
+	for ci := range w.ctls {
+		c := w.ctls[ci]
+		if c == nil || c.cancel == nil {
+			continue
+		}
+		for k := 0; k < 2; k++ {
+			hammerWg.Add(1)
+			go func(c *ctl, p peer.ID) {
+				defer hammerWg.Done()
+				for !hammerStop.Load() {
+					_ = c.ctrl.GetPeerLinks(p)
+				}
+			}(c, w.peerOf(2+k))
+		}
+	}
+	// spin barrier: the goroutines leave it within nanoseconds of each other
+	var arrived atomic.Int32
+	ng := int32(len(o.batch))
+	var wg sync.WaitGroup
+	var stuckMtx sync.Mutex
+	for _, g := range o.batch {
+		wg.Add(1)
+		go func(g []op) {
+			defer wg.Done()
+			arrived.Add(1)
+			for spins := 0; arrived.Load() < ng; spins++ {
+				if spins > 2000 {
+					runtime.Gosched()
+				}
+			}
+			for _, x := range g {
+				c := w.ctls[x.c]
+				h := c.getHandler()
+				fl := w.getLink(x)
+				ch := w.rec.expect(x.kind, fl)
+				if x.kind == "est" {
+					h.HandleLinkEstablished(fl)
+				} else {
+					h.HandleLinkLost(fl)
+				}
+				select {
+				case <-ch:
+				case <-time.After(opTimeout):
+					stuckMtx.Lock()
+					w.stuck = "a concurrently delivered " + x.kind + " never completed its critical section"
+					stuckMtx.Unlock()
+					return
+				}
+			}
+		}(g)
+	}
+	if len(gates) != 0 {
+		// let the first events of all goroutines pile up behind the lock, then open it
+		time.Sleep(time.Duration(200+w.e.rng.Intn(1500)) * time.Microsecond)
+		for _, g := range gates {
+			close(g.release)
+		}
+	}
+	wg.Wait()
+	hammerStop.Store(true)
+	hammerWg.Wait()
+	// the order the critical sections actually ran in (hook inside the lock)
+	var traceAll []evKey
+	for _, ev := range w.rec.since(mark) {
+		if inBatch[ev] > 0 {
+			inBatch[ev]--
+			traceAll = append(traceAll, ev)
+		}
+	}
+	for ci, c := range w.ctls {
+		if c == nil {
+			continue
+		}
+		var gs [][]op
+		n := 0
+		for _, g := range o.batch {
+			var pg []op
+			for _, x := range g {
+				if x.c == ci {
+					pg = append(pg, x)
+					n++
+				}
+			}
+			gs = append(gs, pg)
+		}
+		if n == 0 {
+			continue
+		}
+		// trace projected on this controller, as model ops
+		byKey := map[evKey][]op{}
+		for _, g := range gs {
+			for _, x := range g {
+				k := evKey{x.kind, w.getLink(x)}
+				byKey[k] = append(byKey[k], x)
+			}
+		}
+		var trace []op
+		for _, ev := range traceAll {
+			if q := byKey[ev]; len(q) != 0 && ev.l.ctl == ci {
+				trace = append(trace, q[0])
+				byKey[ev] = q[1:]
+			}
+		}
+		var gss []string
+		for _, g := range gs {
+			gss = append(gss, opStrings(g))
+		}
+		pre := opStrings(c.seq)
+		lop := fmt.Sprintf("links.linearize pre=%s g=%s", pre, strings.Join(gss, "/"))
+		lm := e.m.Query(lop)
+		cands := strings.Split(lib.KV(lm, "states"), "|")
+		isCand := func(t tables) bool {
+			for _, s := range cands {
+				if s == t.compact() {
+					return true
+				}
+			}
+			return false
+		}
+		// the exact expectation: the model on the observed order
+		full := append(append([]op(nil), c.seq...), trace...)
+		top := "links.hist ops=" + opStrings(full)
+		tm := e.m.Query(top)
+		exact := fmt.Sprintf("live=%s bypeer=%s closed=%s", lib.KV(tm, "live"), lib.KV(tm, "bypeer"), lib.KV(tm, "closed"))
+		got := w.settle(c, func(t tables) bool { return len(trace) == n && t.String() == exact })
+
+		// model-independent monitor: SOME ordering of the batch must explain the observation
+		mon := w.stuck
+		if mon == "" && len(trace) != n {
+			mon = fmt.Sprintf("%d of the %d concurrently delivered events completed a critical section", len(trace), n)
+		}
+		if mon == "" {
+			explained := false
+			var poss []string
+			merges(gs, func(sigma []op) {
+				sp := replaySpec(append(append([]op(nil), c.seq...), sigma...))
+				s := idsOf(sp.live) + "/" + idsOf(sp.closed)
+				if s == got.live+"/"+got.closed {
+					explained = true
+				}
+				dup := false
+				for _, p := range poss {
+					dup = dup || p == s
+				}
+				if !dup {
+					poss = append(poss, s)
+				}
+			})
+			if !explained {
+				mon = fmt.Sprintf("after %s then concurrently {%s} the controller reports links {%s} and has closed {%s}; no ordering of the concurrent events explains this (possible live/closed: %s)",
+					pre, strings.Join(gss, " || "), got.live, got.closed, strings.Join(poss, " "))
+			}
+		}
+		if mon == "" && got.inv != "" {
+			mon = got.inv + " (after concurrent delivery of {" + strings.Join(gss, " || ") + "})"
+		}
+		if mon == "" && got.bypeer != got.live {
+			mon = "links-by-peer table {" + got.bypeer + "} differs from links-by-uuid table {" + got.live + "} after concurrent delivery of {" + strings.Join(gss, " || ") + "}"
+		}
+		if mon == "" {
+			// the order reported by the hook must keep each goroutine's order
+			for _, g := range gs {
+				last := -1
+				used := map[int]bool{}
+				for _, x := range g {
+					found := -1
+					for i, y := range trace {
+						if !used[i] && i > last && y.kind == x.kind && y.id == x.id {
+							found = i
+							break
+						}
+					}
+					if found < 0 {
+						mon = "the critical sections of one goroutine ran out of order: " + opStrings(trace) + " vs goroutine " + opStrings(g)
+						break
+					}
+					used[found] = true
+					last = found
+				}
+			}
+		}
+		model := "member " + got.compact()
+		impl := model
+		if !isCand(got) {
+			model = "one-of " + strings.Join(cands, "|")
+			impl = "got " + got.compact()
+		}
+		e.rep.Compare(lop, model, impl, "conc.linearize", "links.conc:linearize", mon)
+		e.rep.Compare(top, exact, got.String(), "conc.trace", "links.conc:trace", mon)
+		c.seq = full
+	}
+}
+
+// runHistory executes one history against fresh controllers.
 func (e *engine) runHistory(ops []op, gen string) {
+	if e.progress != "" {
+		_ = os.WriteFile(e.progress, []byte(lib.Trunc(describe(ops))), 0o644)
+	}
 	ctx, cancel := context.WithCancel(context.Background())
 	defer cancel()
 	tb, err := testbed.NewTestbed(ctx, e.le, testbed.TestbedOpts{NoEcho: true})
@@ -158,242 +912,224 @@ func (e *engine) runHistory(ops []op, gen string) {
 		panic(err)
 	}
 	defer tb.Release()
-	localID := tb.PeerID
-	peerOf := func(i int) peer.ID {
-		switch i {
-		case 0:
-			return ""
-		case 1:
-			return localID
-		}
-		return peer.ID(fmt.Sprintf("fake-remote-peer-%d", i))
-	}
-	var handler transport.TransportHandler
-	handlerCh := make(chan struct{})
-	ctor := func(cctx context.Context, le *logrus.Entry, pkey crypto.PrivKey, h transport.TransportHandler) (transport.Transport, error) {
-		handler = h
-		close(handlerCh)
-		return &fakeTransport{pid: localID}, nil
-	}
-	info := controller.NewInfo("verif/fake-transport", semver.MustParse("0.0.1"), "fake transport")
-	ctrl := transport_controller.NewController(e.le, tb.Bus, info, localID, false, ctor)
+	w := &world{e: e, ctx: ctx, tb: tb, pids: map[int]peer.ID{peerA: tb.PeerID}, links: map[int]*fakeLink{},
+		rec: &recorder{waiters: map[evKey][]chan struct{}{}, gates: map[*fakeLink]*gate{}}}
+	e.rec.Store(w.rec)
+	defer e.rec.Store(nil)
 
-	links := map[int]*fakeLink{}
-	getLink := func(o op) *fakeLink {
-		if l, ok := links[o.id]; ok {
-			return l
+	two := false
+	for _, o := range ops {
+		if o.c == 1 {
+			two = true
 		}
-		l := newFakeLink(o.id, o.uuid, localID, peerOf(o.rem))
-		links[o.id] = l
-		return l
-	}
-	var ctrlCancel context.CancelFunc
-	var ctrlDone chan struct{}
-	base := transport_controller.VerifOpsDone()
-	issued := int64(0)
-	started := false
-	var observers []*observer
-	waitOps := func() bool {
-		deadline := time.Now().Add(5 * time.Second)
-		for transport_controller.VerifOpsDone()-base < issued {
-			if time.Now().After(deadline) {
-				return false
+		for _, g := range o.batch {
+			for _, x := range g {
+				if x.c == 1 {
+					two = true
+				}
 			}
-			time.Sleep(50 * time.Microsecond)
 		}
-		return true
 	}
-	stuck := ""
+	if two {
+		// a second identity (second key) with its own peer controller on the SAME bus
+		np, err := peer.NewPeer(nil)
+		if err != nil {
+			panic(err)
+		}
+		pk, err := np.GetPrivKey(ctx)
+		if err != nil {
+			panic(err)
+		}
+		cfg, err := peer_controller.NewConfigWithPrivKey(pk)
+		if err != nil {
+			panic(err)
+		}
+		_, _, pref, err := bus.ExecOneOff(ctx, tb.Bus, resolver.NewLoadControllerWithConfig(cfg), nil, nil)
+		if err != nil {
+			panic(err)
+		}
+		defer pref.Release()
+		w.pids[peerB] = np.GetPeerID()
+	}
+	w.ctls[0] = w.newCtl(0, peerA, w.pids[peerA])
+	if two {
+		w.ctls[1] = w.newCtl(1, peerB, w.pids[peerB])
+	}
+	srcsAll := []int{0, 1, 2}
+	dsts := []int{1, 2, 3}
+	if two {
+		srcsAll = []int{0, 1, 2, 4}
+		dsts = []int{1, 2, 3, 4}
+	}
+	observersAdded := false
+
 	for _, o := range ops {
 		switch o.kind {
 		case "start":
-			if started {
+			c := w.ctls[o.c]
+			if c.cancel != nil {
 				continue
 			}
-			started = true
+			first := !observersAdded
 			// requests for links arrive both BEFORE the transport is constructed (the early filter in
 			// resolveEstablishLink cannot apply yet) and after it is up
-			addObservers := func(srcs []int) {
-				for _, src := range srcs {
-					for _, dst := range []int{1, 2, 3} {
-						ob := &observer{vals: map[uint32]link.MountedLink{}, src: src, dst: dst}
-						_, ref, err := tb.Bus.AddDirective(link.NewEstablishLinkWithPeer(peerOf(src), peerOf(dst)), ob)
-						if err != nil {
-							panic(err)
-						}
-						ob.ref = ref
-						observers = append(observers, ob)
-					}
-				}
-			}
-			early := []int{0, 1, 2}
-			late := []int{0, 1, 2}
+			early, late := srcsAll, srcsAll
 			if e.rng.Intn(2) == 0 {
-				early, late = []int{2}, []int{0, 1}
+				early, late = srcsAll[2:], srcsAll[:2]
 			}
-			addObservers(early)
-			var cctx context.Context
-			cctx, ctrlCancel = context.WithCancel(ctx)
-			ctrlDone = make(chan struct{})
-			go func() {
-				_ = tb.Bus.ExecuteController(cctx, ctrl)
-				close(ctrlDone)
-			}()
-			select {
-			case <-handlerCh:
-			case <-time.After(5 * time.Second):
-				panic("controller did not construct transport")
+			if first {
+				w.addObservers(early, dsts)
 			}
-			if _, err := ctrl.GetTransport(ctx); err != nil {
-				panic(err)
+			w.startCtl(c)
+			if first {
+				w.addObservers(late, dsts)
+				observersAdded = true
 			}
-			addObservers(late)
+			c.seq = append(c.seq, o)
 		case "shutdown":
-			if ctrlCancel != nil {
-				ctrlCancel()
-				select {
-				case <-ctrlDone:
-				case <-time.After(5 * time.Second):
-					stuck = "controller did not exit"
+			c := w.ctls[o.c]
+			if c.cancel != nil {
+				w.stopCtl(c)
+			}
+			c.seq = append(c.seq, o)
+		case "reuuid":
+			w.getLink(o).uuid.Store(o.uuid)
+		case "est", "lost":
+			c := w.ctls[o.c]
+			if c.getHandler() == nil {
+				continue
+			}
+			w.issue(o)
+			c.seq = append(c.seq, o)
+		case "batch":
+			w.runBatch(o)
+		}
+	}
+	desc := describe(ops)
+
+	anyRunning := false
+	for ci, c := range w.ctls {
+		if c == nil {
+			continue
+		}
+		if c.cancel != nil {
+			anyRunning = true
+		}
+		if len(c.seq) == 0 && ci == 1 {
+			continue
+		}
+		opline := "links.hist ops=" + opStrings(c.seq)
+		model := e.m.Query(opline)
+		mLive := lib.KV(model, "live")
+		spec := lib.KV(model, "spec")
+		modelCmp := fmt.Sprintf("live=%s bypeer=%s closed=%s", mLive, lib.KV(model, "bypeer"), lib.KV(model, "closed"))
+		got := w.settle(c, func(t tables) bool { return t.String() == modelCmp })
+		mon := w.stuck
+		sp := replaySpec(c.seq)
+		key := "links.hist:" + gen
+		if mon == "" && got.live != idsOf(sp.live) {
+			mon = fmt.Sprintf("after history %s the controller reports links {%s} but the links established and not yet lost are {%s}", desc, got.live, idsOf(sp.live))
+		}
+		if mon == "" && got.bypeer != got.live {
+			mon = "links-by-peer table differs from links-by-uuid table"
+		}
+		if mon == "" && got.inv != "" {
+			mon = got.inv + " (history " + desc + ")"
+		}
+		if mon == "" && got.closed != idsOf(sp.closed) {
+			mon = fmt.Sprintf("after history %s the links closed by the controller are {%s} but the links lost, replaced, rejected or shut down are {%s}", desc, got.closed, idsOf(sp.closed))
+		}
+		// the strict reading: a link already reported lost is never reported again
+		if mon == "" {
+			for id := range sp.live {
+				if sp.everLost[id] && gen == "est-after-lost" && e.a.Prop == "C06" {
+					mon = fmt.Sprintf("link %d is reported although it was reported lost before its establishment was processed (history %s)", id, desc)
+					key = "links.hist:est-after-lost"
 				}
-				ctrlCancel = nil
-			}
-		case "est":
-			if handler == nil {
-				continue
-			}
-			if ctrlCancel == nil {
-				// transport exited: the handler returns before its critical section
-				handler.HandleLinkEstablished(getLink(o))
-				continue
-			}
-			issued++
-			handler.HandleLinkEstablished(getLink(o))
-			if !waitOps() {
-				stuck = "HandleLinkEstablished critical section did not complete"
-			}
-		case "lost":
-			if handler == nil {
-				continue
-			}
-			issued++
-			handler.HandleLinkLost(getLink(o))
-			if !waitOps() {
-				stuck = "HandleLinkLost critical section did not complete"
 			}
 		}
-	}
-	var ss []string
-	for _, o := range ops {
-		ss = append(ss, o.String())
-	}
-	opline := "links.hist ops=" + strings.Join(ss, ",")
-	model := e.m.Query(opline)
-	mLive := lib.KV(model, "live")
-	mClosed := lib.KV(model, "closed")
-
-	spec := lib.KV(model, "spec")
-
-	// wait for quiescence: tables, closes and directive values as the model predicts (or timeout)
-	observe := func() (string, string, string) {
-		byUUID, byPeer := ctrl.VerifSnapshot()
-		live := map[int]bool{}
-		for _, l := range byUUID {
-			live[l.(*fakeLink).id] = true
+		br := "hist." + gen
+		if spec != mLive {
+			// model and spec disagree: the refinement theorem does not cover this history shape
+			br = "hist.model-spec-differ"
 		}
-		bp := map[int]bool{}
-		for _, ls := range byPeer {
-			for _, l := range ls {
-				bp[l.(*fakeLink).id] = true
-			}
-		}
-		cl := map[int]bool{}
-		for id, l := range links {
-			if l.isClosed() {
-				cl[id] = true
-			}
-		}
-		return idsOf(live), idsOf(bp), idsOf(cl)
+		e.rep.Compare(opline, modelCmp, got.String(), br, key, mon)
 	}
-	deadline := time.Now().Add(3 * time.Second)
-	var live, bp, cl string
-	for {
-		live, bp, cl = observe()
-		if live == mLive && bp == lib.KV(model, "bypeer") && cl == mClosed {
-			break
-		}
-		if time.Now().After(deadline) {
-			break
-		}
-		time.Sleep(200 * time.Microsecond)
-	}
-	impl := fmt.Sprintf("live=%s bypeer=%s closed=%s", live, bp, cl)
-	modelCmp := fmt.Sprintf("live=%s bypeer=%s closed=%s", mLive, lib.KV(model, "bypeer"), mClosed)
-	mon := stuck
-	wantLive, everLost := replaySpec(ops)
-	key := "links.hist:" + gen
-	if mon == "" && live != idsOf(wantLive) {
-		mon = fmt.Sprintf("after history %s the controller reports links {%s} but the links established and not yet lost are {%s}", strings.Join(ss, ","), live, idsOf(wantLive))
-	}
-	if mon == "" && bp != live {
-		mon = "links-by-peer table differs from links-by-uuid table"
-	}
-	// the strict reading: a link already reported lost is never reported again
-	if mon == "" {
-		for id := range wantLive {
-			if everLost[id] && gen == "est-after-lost" && e.a.Prop == "C06" {
-				mon = fmt.Sprintf("link %d is reported although it was reported lost before its establishment was processed (history %s)", id, strings.Join(ss, ","))
-				key = "links.hist:est-after-lost"
-			}
-		}
-	}
-	br := "hist." + gen
-	if spec != mLive {
-		// model and spec disagree: the refinement theorem does not cover this history shape
-		br = "hist.model-spec-differ"
-	}
-	e.rep.Compare(opline, modelCmp, impl, br, key, mon)
 
 	// C04: directive values + GetPeerLinks
-	if ctrlCancel != nil {
-		for _, ob := range observers {
-			rop := fmt.Sprintf("links.resolve ops=%s src=%d dst=%d", strings.Join(ss, ","), ob.src, ob.dst)
+	if anyRunning {
+		wantLive := map[int]bool{}
+		for _, c := range w.ctls {
+			if c != nil {
+				for id := range replaySpec(c.seq).live {
+					wantLive[id] = true
+				}
+			}
+		}
+		seqs := opStrings(w.ctls[0].seq)
+		if two {
+			seqs += "/" + opStrings(w.ctls[1].seq)
+		}
+		for _, ob := range w.observers {
+			var rop string
+			if two {
+				rop = fmt.Sprintf("links.resolvebus cs=%s src=%d dst=%d", seqs, ob.src, ob.dst)
+			} else {
+				rop = fmt.Sprintf("links.resolve ops=%s src=%d dst=%d", seqs, ob.src, ob.dst)
+			}
 			rm := e.m.Query(rop)
 			var got string
 			var bad string
-			dl := time.Now().Add(3 * time.Second)
+			dl := time.Now().Add(e.patience())
 			for {
 				ob.mtx.Lock()
-				ids := map[int]bool{}
+				var ids []string
 				bad = ob.bad
 				for _, ml := range ob.vals {
 					// property monitor: only links between the requested peers
-					if ml.GetRemotePeer() != peerOf(ob.dst) {
-						bad = "link to " + ml.GetRemotePeer().String() + " yielded for a request to peer " + strconv.Itoa(ob.dst)
-					}
-					if ob.src != 0 && ml.GetLocalPeer() != peerOf(ob.src) {
-						bad = "link from " + ml.GetLocalPeer().String() + " yielded for a request from peer " + strconv.Itoa(ob.src)
-					}
-					if ml.GetRemotePeer() == localID {
-						bad = "a link to the local peer itself was yielded"
+					if vd := ob.valueVerdict(ml); vd != "" {
+						bad = vd
 					}
 					// which link OBJECT does this value wrap? OpenMountedStream reaches the link's OpenStream
 					before := map[int]int{}
-					for id, l := range links {
+					w.linksMtx.Lock()
+					for id, l := range w.links {
 						before[id] = l.openCount()
 					}
+					w.linksMtx.Unlock()
 					_, _ = ml.OpenMountedStream(ctx, "verif/probe", stream.OpenOpts{})
-					for id, l := range links {
+					w.linksMtx.Lock()
+					for id, l := range w.links {
 						if l.openCount() != before[id] {
-							ids[id] = true
+							if two {
+								lpIdx := peerA
+								if l.ctl == 1 {
+									lpIdx = peerB
+								}
+								ids = append(ids, fmt.Sprintf("%d:%d", lpIdx, id))
+								if ml.GetLocalPeer() != w.ctls[l.ctl].pid {
+									bad = fmt.Sprintf("the value wrapping link %d reports another local peer than the link's transport", id)
+								}
+							} else {
+								ids = append(ids, strconv.Itoa(id))
+							}
 							if !wantLive[id] {
 								bad = fmt.Sprintf("request for a link to peer %d still yields link %d although that link was lost/closed", ob.dst, id)
 							}
 						}
 					}
+					w.linksMtx.Unlock()
+				}
+				if bad == "" {
+					bad = ob.everBad
 				}
 				ob.mtx.Unlock()
-				got = "ok " + idsOf(ids)
+				sortIDs(ids)
+				if len(ids) == 0 {
+					got = "ok _"
+				} else {
+					got = "ok " + strings.Join(ids, ",")
+				}
 				if got == rm || time.Now().After(dl) {
 					break
 				}
@@ -401,79 +1137,114 @@ func (e *engine) runHistory(ops []op, gen string) {
 			}
 			e.rep.Compare(rop, rm, got, "resolve."+map[bool]string{true: "empty", false: "nonempty"}[rm == "ok _"], "links.resolve", bad)
 		}
-		for _, p := range []int{1, 2, 3} {
-			gop := fmt.Sprintf("links.get ops=%s p=%d", strings.Join(ss, ","), p)
-			gm := e.m.Query(gop)
-			ids := map[int]bool{}
-			bad := ""
-			for _, l := range ctrl.GetPeerLinks(peerOf(p)) {
-				ids[l.(*fakeLink).id] = true
-				if l.GetRemotePeer() != peerOf(p) {
-					bad = "GetPeerLinks returned a link to another peer"
-				}
+		for _, c := range w.ctls {
+			if c == nil || c.cancel == nil {
+				continue
 			}
-			e.rep.Compare(gop, gm, "ok "+idsOf(ids), "get", "links.get", bad)
+			ps := []int{1, 2, 3}
+			if two {
+				ps = []int{1, 2, 3, 4}
+			}
+			for _, p := range ps {
+				gop := fmt.Sprintf("links.get ops=%s p=%d", opStrings(c.seq), p)
+				gm := e.m.Query(gop)
+				ids := map[int]bool{}
+				bad := ""
+				for _, l := range c.ctrl.GetPeerLinks(w.peerOf(p)) {
+					ids[l.(*fakeLink).id] = true
+					if l.GetRemotePeer() != w.peerOf(p) {
+						bad = "GetPeerLinks returned a link to another peer"
+					}
+				}
+				e.rep.Compare(gop, gm, "ok "+idsOf(ids), "get", "links.get", bad)
+			}
 		}
 	}
-	for _, ob := range observers {
+	for _, ob := range w.observers {
 		ob.ref.Release()
 	}
-	if ctrlCancel != nil {
-		ctrlCancel()
-		<-ctrlDone
-	}
-}
-
-
-// replaySpec replays a history against the plain statement of the property: the set of links
-// established and not yet lost (a newer link with the same uuid replaces the older one).
-func replaySpec(ops []op) (map[int]bool, map[int]bool) {
-	wantLive := map[int]bool{}
-	uu := map[int]uint64{}
-	running := false
-	everLost := map[int]bool{}
-	for _, o := range ops {
-		switch o.kind {
-		case "start":
-			running = true
-		case "shutdown":
-			running = false
-			wantLive = map[int]bool{}
-		case "est":
-			if !running || o.rem == 1 {
-				continue
-			}
-			if wantLive[o.id] {
-				continue
-			}
-			for id := range wantLive {
-				if uu[id] == o.uuid {
-					delete(wantLive, id)
-				}
-			}
-			wantLive[o.id] = true
-			uu[o.id] = o.uuid
-		case "lost":
-			delete(wantLive, o.id)
-			everLost[o.id] = true
+	for _, c := range w.ctls {
+		if c != nil && c.cancel != nil {
+			c.cancel()
+			<-c.done
 		}
 	}
-	return wantLive, everLost
+	e.checkRace(desc)
+}
+
+// sortIDs sorts "lp:id" / "id" tokens numerically.
+func sortIDs(ids []string) {
+	keyOf := func(s string) int {
+		a, b, ok := strings.Cut(s, ":")
+		if !ok {
+			n, _ := strconv.Atoi(a)
+			return n
+		}
+		x, _ := strconv.Atoi(a)
+		y, _ := strconv.Atoi(b)
+		return x*1000000 + y
+	}
+	sort.Slice(ids, func(i, j int) bool { return keyOf(ids[i]) < keyOf(ids[j]) })
+}
+
+// checkRace turns new output of the Go race detector into a disagreement for this history.
+func (e *engine) checkRace(desc string) {
+	if e.raceLog == "" {
+		return
+	}
+	dat, err := os.ReadFile(e.raceLog)
+	if err != nil || int64(len(dat)) <= e.raceOff {
+		return
+	}
+	txt := string(dat[e.raceOff:])
+	e.raceOff = int64(len(dat))
+	if !strings.Contains(txt, "WARNING: DATA RACE") {
+		return
+	}
+	// name the first bifrost frame of the report
+	where := ""
+	for _, ln := range strings.Split(txt, "\n") {
+		if strings.Contains(ln, "bifrost/transport/controller") && !strings.Contains(ln, "verif_") {
+			where = strings.TrimSpace(ln)
+			break
+		}
+	}
+	if where == "" {
+		// not in the code under verification (bus / test scaffolding): note it, do not fail
+		e.rep.Notes = append(e.rep.Notes, "race report outside transport/controller ignored: "+lib.Trunc(strings.ReplaceAll(txt, "\n", " | ")))
+		return
+	}
+	e.rep.Compare("links.race "+desc, "no-race", "race "+where, "race.report", "links.conc:race",
+		"the Go race detector reported a data race in the transport controller while link events were delivered ("+where+") during history "+desc)
+}
+
+// ---------------------------------------------------------------------------------------
+// generators
+
+type ld struct {
+	id   int
+	uuid uint64
+	rem  int
 }
 
 func (e *engine) genHistory(mode int) ([]op, string) {
 	ops := []op{{kind: "start", lp: 1}}
 	gen := "random"
 	nl := 2 + e.rng.Intn(3)
-	type ld struct {
-		id   int
-		uuid uint64
-		rem  int
+	nu := 2 + e.rng.Intn(3) // 2-4 uuids: collisions are the point, but more than two must coexist
+	samePeer := e.rng.Intn(3) == 0
+	if samePeer {
+		nl = 3 + e.rng.Intn(3) // 3-5 links in ONE per-peer bucket
+		nu = 4
 	}
 	var ls []ld
 	for i := 1; i <= nl; i++ {
-		u := uint64(7 + e.rng.Intn(2)) // few uuids: collisions are the point
+		u := uint64(7 + e.rng.Intn(nu))
 		r := 2 + e.rng.Intn(2)
+		if samePeer {
+			r = 2
+			u = uint64(7 + (i-1)%nu)
+		}
 		if e.rng.Intn(8) == 0 {
 			r = 1 // self link
 		}
@@ -542,16 +1313,7 @@ func (e *engine) genHistory(mode int) ([]op, string) {
 		}
 	}
 	if mode == 2 {
-		gen = "unordered"
-		seenLost := map[int]bool{}
-		for _, o := range ops {
-			if o.kind == "lost" {
-				seenLost[o.id] = true
-			}
-			if o.kind == "est" && seenLost[o.id] {
-				gen = "est-after-lost"
-			}
-		}
+		gen = classifyUnordered(ops, gen)
 	}
 	if mode == 3 {
 		gen = "uuid-shared-across-peers"
@@ -559,43 +1321,481 @@ func (e *engine) genHistory(mode int) ([]op, string) {
 	return ops, gen
 }
 
-func (e *engine) run() {
-	e.rep.Rule = "histories of 3–25 link events over 2–4 fake link objects sharing 2 uuids and 2 remote peers (+ the local peer): well-ordered, late/duplicate/never-established losses, same-uuid replacement, shutdown, est-after-lost; each run on a fresh real Controller + bus; distinct = distinct history"
-	e.rep.Require("hist.random", "hist.shutdown", "resolve.nonempty", "resolve.empty", "get")
-	// mutation sentinels (corpus): the histories that distinguish the obvious wrong variants
-	sentinels := [][]op{
-		{{kind: "start", lp: 1}, {kind: "est", id: 1, uuid: 7, rem: 2}, {kind: "est", id: 2, uuid: 7, rem: 2}, {kind: "lost", id: 1, uuid: 7, rem: 2}},
-		{{kind: "start", lp: 1}, {kind: "est", id: 1, uuid: 7, rem: 2}, {kind: "est", id: 1, uuid: 7, rem: 2}, {kind: "lost", id: 1, uuid: 7, rem: 2}, {kind: "lost", id: 1, uuid: 7, rem: 2}},
-		{{kind: "start", lp: 1}, {kind: "est", id: 1, uuid: 7, rem: 1}, {kind: "est", id: 2, uuid: 8, rem: 2}},
-		{{kind: "start", lp: 1}, {kind: "est", id: 1, uuid: 7, rem: 2}, {kind: "est", id: 2, uuid: 8, rem: 2}, {kind: "est", id: 3, uuid: 9, rem: 3}, {kind: "lost", id: 2, uuid: 8, rem: 2}},
-		{{kind: "start", lp: 1}, {kind: "est", id: 1, uuid: 7, rem: 2}, {kind: "shutdown"}, {kind: "est", id: 2, uuid: 8, rem: 2}},
+// classifyUnordered names an "anything goes" history: est-after-lost iff some link is
+// reported established after it was reported lost (known finding F25 when it ends up live).
+func classifyUnordered(ops []op, gen string) string {
+	if gen == "random" {
+		gen = "unordered"
 	}
-	for _, s := range sentinels {
-		g := "random"
-		for _, o := range s {
-			if o.kind == "shutdown" {
-				g = "shutdown"
+	seenLost := map[int]bool{}
+	for _, o := range ops {
+		if o.kind == "lost" {
+			seenLost[o.id] = true
+		}
+		if o.kind == "est" && seenLost[o.id] {
+			return "est-after-lost"
+		}
+	}
+	return gen
+}
+
+// genUuidChange: links whose GetUUID changes after establishment, so that HandleLinkLost takes
+// its slow path (the uuid entry is absent or ANOTHER link object; the link is found by
+// identity). A link is never reported established again after its uuid changed.
+func (e *engine) genUuidChange() ([]op, string) {
+	ops := []op{{kind: "start", lp: 1}}
+	nl := 3 + e.rng.Intn(3)
+	var ls []ld
+	for i := 1; i <= nl; i++ {
+		ls = append(ls, ld{i, uint64(7 + i - 1), 2 + e.rng.Intn(2)})
+	}
+	cur := map[int]uint64{}
+	live := map[int]bool{}
+	changed := map[int]bool{}
+	gone := map[int]bool{}
+	n := 4 + e.rng.Intn(14)
+	for k := 0; k < n; k++ {
+		l := ls[e.rng.Intn(len(ls))]
+		switch {
+		case !live[l.id] && !changed[l.id] && !gone[l.id]:
+			ops = append(ops, op{kind: "est", id: l.id, uuid: l.uuid, rem: l.rem})
+			live[l.id] = true
+			cur[l.id] = l.uuid
+			// the establishment replaces whatever is stored under this uuid
+			for id := range live {
+				if id != l.id && !changed[id] && cur[id] == l.uuid {
+					delete(live, id)
+					gone[id] = true
+				}
+			}
+		case live[l.id] && !changed[l.id]:
+			// change the uuid: to a fresh value, or to the uuid of ANOTHER link (live or not)
+			nu := uint64(30 + l.id)
+			collide := e.rng.Intn(3) != 0
+			if collide {
+				o := ls[e.rng.Intn(len(ls))]
+				if o.id != l.id {
+					nu = o.uuid
+				}
+			}
+			ops = append(ops, op{kind: "reuuid", id: l.id, uuid: nu})
+			cur[l.id] = nu
+			changed[l.id] = true
+			if collide || e.rng.Intn(2) == 0 {
+				ops = append(ops, op{kind: "lost", id: l.id, uuid: nu, rem: l.rem})
+				delete(live, l.id)
+				gone[l.id] = true
+			}
+		default:
+			u := l.uuid
+			if c, ok := cur[l.id]; ok {
+				u = c
+			}
+			ops = append(ops, op{kind: "lost", id: l.id, uuid: u, rem: l.rem})
+			if live[l.id] {
+				delete(live, l.id)
+				gone[l.id] = true
 			}
 		}
-		e.runHistory(s, g)
+	}
+	if e.rng.Intn(4) == 0 {
+		ops = append(ops, op{kind: "shutdown"})
+	}
+	return ops, "uuid-change"
+}
+
+// genRestart: the controller is shut down and executed again (`start` after `shutdown`).
+func (e *engine) genRestart() ([]op, string) {
+	ops := []op{{kind: "start", lp: 1}}
+	mk := func(base int) []ld {
+		var ls []ld
+		for i := 1; i <= 2+e.rng.Intn(3); i++ {
+			ls = append(ls, ld{base + i, uint64(7 + e.rng.Intn(3)), 2 + e.rng.Intn(2)})
+		}
+		for i := range ls {
+			for j := 0; j < i; j++ {
+				if ls[j].uuid == ls[i].uuid {
+					ls[i].rem = ls[j].rem
+				}
+			}
+		}
+		return ls
+	}
+	var old []ld
+	rounds := 2 + e.rng.Intn(2)
+	for r := 0; r < rounds; r++ {
+		ls := mk(10 * r)
+		est := map[int]bool{}
+		lost := map[int]bool{}
+		for k := 0; k < 2+e.rng.Intn(8); k++ {
+			// late losses of link objects of the PREVIOUS execution (same uuids as the new ones)
+			if len(old) != 0 && e.rng.Intn(4) == 0 {
+				l := old[e.rng.Intn(len(old))]
+				ops = append(ops, op{kind: "lost", id: l.id, uuid: l.uuid, rem: l.rem})
+				continue
+			}
+			l := ls[e.rng.Intn(len(ls))]
+			if (est[l.id] && e.rng.Intn(2) == 0) || lost[l.id] {
+				ops = append(ops, op{kind: "lost", id: l.id, uuid: l.uuid, rem: l.rem})
+				if est[l.id] {
+					lost[l.id] = true
+				}
+				continue
+			}
+			ops = append(ops, op{kind: "est", id: l.id, uuid: l.uuid, rem: l.rem})
+			est[l.id] = true
+		}
+		if r == rounds-1 && e.rng.Intn(2) == 0 {
+			break
+		}
+		ops = append(ops, op{kind: "shutdown"})
+		if e.rng.Intn(2) == 0 {
+			// while down: an establishment (fresh object) is closed, a loss is a no-op
+			l := ls[e.rng.Intn(len(ls))]
+			ops = append(ops, op{kind: "est", id: 60 + 10*r + l.id%10, uuid: l.uuid, rem: l.rem})
+			ops = append(ops, op{kind: "lost", id: l.id, uuid: l.uuid, rem: l.rem})
+		}
+		if r < rounds-1 {
+			ops = append(ops, op{kind: "start", lp: 1})
+		}
+		old = ls
+	}
+	return ops, "restart"
+}
+
+// genTwo: two controllers (two identities, two transports) on the same bus.
+func (e *engine) genTwo() ([]op, string) {
+	ops := []op{{kind: "start", c: 0, lp: peerA}, {kind: "start", c: 1, lp: peerB}}
+	if e.rng.Intn(2) == 0 {
+		ops[0], ops[1] = ops[1], ops[0]
+	}
+	type cl struct {
+		c int
+		ld
+	}
+	var ls []cl
+	for c := 0; c < 2; c++ {
+		for i := 1; i <= 2+e.rng.Intn(2); i++ {
+			// remote peers: 2, 3, and the OTHER local identity (a link between the two transports' peers)
+			rems := []int{2, 3, 2, 3, peerB}
+			if c == 1 {
+				rems = []int{2, 3, 2, 3, peerA}
+			}
+			r := rems[e.rng.Intn(len(rems))]
+			if e.rng.Intn(10) == 0 {
+				r = []int{peerA, peerB}[c] // self link
+			}
+			// both transports use the same uuids: they are independent tables
+			ls = append(ls, cl{c, ld{10*c + i, uint64(7 + e.rng.Intn(3)), r}})
+		}
+	}
+	for i := range ls {
+		for j := 0; j < i; j++ {
+			if ls[j].c == ls[i].c && ls[j].uuid == ls[i].uuid {
+				ls[i].rem = ls[j].rem
+			}
+		}
+	}
+	est := map[int]bool{}
+	lost := map[int]bool{}
+	for k := 0; k < 4+e.rng.Intn(12); k++ {
+		l := ls[e.rng.Intn(len(ls))]
+		kind := "est"
+		if (est[l.id] && e.rng.Intn(3) == 0) || lost[l.id] {
+			kind = "lost"
+		}
+		if kind == "est" {
+			est[l.id] = true
+		} else if est[l.id] {
+			lost[l.id] = true
+		}
+		ops = append(ops, op{kind: kind, c: l.c, id: l.id, uuid: l.uuid, rem: l.rem})
+	}
+	if e.rng.Intn(5) == 0 {
+		ops = append(ops, op{kind: "shutdown", c: e.rng.Intn(2)})
+	}
+	return ops, "two-controllers"
+}
+
+// genConcurrent: a sequential prefix, then one or two batches of up to 6 events fired from
+// several goroutines without a barrier.
+func (e *engine) genConcurrent() ([]op, string) {
+	ops := []op{{kind: "start", lp: 1}}
+	next := 1
+	newLink := func(uuid uint64, rem int) ld {
+		l := ld{next, uuid, rem}
+		next++
+		return l
+	}
+	mk := func(kind string, l ld) op { return op{kind: kind, id: l.id, uuid: l.uuid, rem: l.rem} }
+	var live []ld
+	// sequential prefix
+	for i := 0; i < e.rng.Intn(4); i++ {
+		l := newLink(uint64(7+i), 2+e.rng.Intn(2))
+		ops = append(ops, mk("est", l))
+		live = append(live, l)
+	}
+	nb := 1 + e.rng.Intn(2)
+	for b := 0; b < nb; b++ {
+		var gs [][]op
+		switch shape := e.rng.Intn(6); shape {
+		case 0: // the same new link reported by 2-3 goroutines at once (duplicate detection)
+			l := newLink(uint64(20+b), 2)
+			for i := 0; i < 2+e.rng.Intn(2); i++ {
+				gs = append(gs, []op{mk("est", l)})
+			}
+			if e.rng.Intn(2) == 0 {
+				gs = append(gs, []op{mk("est", newLink(l.uuid, 2))})
+			}
+		case 1: // two new links with one uuid race; the loss of a live link with that uuid arrives too
+			u := uint64(7)
+			rem := 2
+			if len(live) != 0 {
+				u, rem = live[0].uuid, live[0].rem
+			}
+			gs = append(gs, []op{mk("est", newLink(u, rem))}, []op{mk("est", newLink(u, rem))})
+			if len(live) != 0 {
+				gs = append(gs, []op{mk("lost", live[0])})
+				live = live[1:]
+			}
+		case 2: // duplicate report of a live link races with its loss
+			l := newLink(uint64(25+b), 3)
+			ops = append(ops, mk("est", l))
+			gs = append(gs, []op{mk("est", l)}, []op{mk("lost", l)})
+			if e.rng.Intn(2) == 0 {
+				gs = append(gs, []op{mk("lost", l)})
+			}
+		case 3: // one per-peer bucket: several live links to one peer lost at once while new ones arrive
+			var bucket []ld
+			for i := 0; i < 3+e.rng.Intn(2); i++ {
+				l := newLink(uint64(40+10*b+i), 2)
+				ops = append(ops, mk("est", l))
+				bucket = append(bucket, l)
+			}
+			for i, l := range bucket {
+				if i < 4 && e.rng.Intn(4) != 0 {
+					gs = append(gs, []op{mk("lost", l)})
+				}
+			}
+			gs = append(gs, []op{mk("est", newLink(uint64(48+10*b), 2)), mk("est", newLink(uint64(49+10*b), 2))})
+		default: // goroutines owning disjoint link objects (shared uuids): est, dup est, lost, late lost
+			ng := 2 + e.rng.Intn(3)
+			total := 0
+			for g := 0; g < ng && total < 6; g++ {
+				var seq []op
+				l := newLink(uint64(7+e.rng.Intn(2)), 2)
+				k := 1 + e.rng.Intn(3)
+				if total+k > 6 {
+					k = 6 - total
+				}
+				established := false
+				for i := 0; i < k; i++ {
+					if established && e.rng.Intn(2) == 0 {
+						seq = append(seq, mk("lost", l))
+						l = newLink(uint64(7+e.rng.Intn(2)), 2)
+						established = false
+						continue
+					}
+					seq = append(seq, mk("est", l))
+					established = true
+				}
+				total += len(seq)
+				gs = append(gs, seq)
+			}
+		}
+		ops = append(ops, op{kind: "batch", batch: gs, gate: e.rng.Intn(2) == 0})
+		if e.rng.Intn(2) == 0 {
+			ops = append(ops, mk("est", newLink(uint64(7+e.rng.Intn(3)), 2+e.rng.Intn(2))))
+		}
+	}
+	return ops, "concurrent"
+}
+
+// stress is one history with n rounds of "the same new link reported by three goroutines at
+// once, while the loss of the previous round's link arrives".
+func stress(n int) []op {
+	ops := []op{{kind: "start", lp: 1}}
+	for i := 0; i < n; i++ {
+		l := op{kind: "est", id: 100 + i, uuid: uint64(7 + i%2), rem: 2}
+		gs := [][]op{{l}, {l}, {l}}
+		if i > 0 {
+			gs = append(gs, []op{{kind: "lost", id: 100 + i - 1, uuid: uint64(7 + (i-1)%2), rem: 2}})
+		}
+		ops = append(ops, op{kind: "batch", batch: gs, gate: i%4 == 3})
+	}
+	return ops
+}
+
+func (e *engine) run() {
+	e.rep.Rule = "histories of 3–25 link events over 2–5 fake link objects sharing 2–4 uuids and 2 remote peers (+ the local peers), up to 5 live links in one per-peer bucket: well-ordered, late/duplicate/never-established losses, same-uuid replacement, shutdown, restart after shutdown, anything-goes (est-after-lost), links whose uuid changes after establishment (HandleLinkLost slow path: uuid entry absent / another link object), two controllers with two identities on one bus, and batches of ≤ 6 events fired from 2–4 goroutines without a barrier (spin barrier or all queued behind the held lock, GetPeerLinks readers hammering the lock; accepted iff the tables are the model's result for an interleaving that keeps per-goroutine order, and for the observed order of the critical sections); every value ever emitted to an EstablishLinkWithPeer handler is checked; engine built with -race (a race report or a fatal runtime error is a confirmed disagreement); each history runs on fresh real Controllers + bus; distinct = distinct history"
+	e.rep.Require("hist.random", "hist.shutdown", "hist.unordered", "hist.uuid-change", "hist.restart", "hist.two-controllers", "hist.concurrent",
+		"conc.linearize", "conc.trace", "resolve.nonempty", "resolve.empty", "get")
+	L := func(kind string, id int, uuid uint64, rem int) op {
+		return op{kind: kind, id: id, uuid: uuid, rem: rem}
+	}
+	LB := func(kind string, id int, uuid uint64, rem int) op {
+		return op{kind: kind, c: 1, id: id, uuid: uuid, rem: rem}
+	}
+	start := op{kind: "start", lp: 1}
+	startB := op{kind: "start", c: 1, lp: peerB}
+	// mutation sentinels (corpus): the histories that distinguish the obvious wrong variants
+	type sent struct {
+		gen string
+		ops []op
+	}
+	sentinels := []sent{
+		{"random", []op{start, L("est", 1, 7, 2), L("est", 2, 7, 2), L("lost", 1, 7, 2)}},
+		{"random", []op{start, L("est", 1, 7, 2), L("est", 1, 7, 2), L("lost", 1, 7, 2), L("lost", 1, 7, 2)}},
+		{"random", []op{start, L("est", 1, 7, 1), L("est", 2, 8, 2)}},
+		{"random", []op{start, L("est", 1, 7, 2), L("est", 2, 8, 2), L("est", 3, 9, 3), L("lost", 2, 8, 2)}},
+		{"shutdown", []op{start, L("est", 1, 7, 2), {kind: "shutdown"}, L("est", 2, 8, 2)}},
+		// three and four links in one per-peer bucket; lose the first, a middle one, the last
+		{"random", []op{start, L("est", 1, 7, 2), L("est", 2, 8, 2), L("est", 3, 9, 2), L("lost", 1, 7, 2), L("est", 4, 10, 2), L("lost", 3, 9, 2)}},
+		{"random", []op{start, L("est", 1, 7, 2), L("est", 2, 8, 2), L("est", 3, 9, 2), L("est", 4, 10, 2), L("lost", 2, 8, 2), L("lost", 4, 10, 2), L("lost", 1, 7, 2)}},
+		// "anything goes" without an establishment after a loss
+		{"unordered", []op{start, L("lost", 1, 7, 2), L("lost", 2, 8, 3), L("est", 3, 9, 2), L("lost", 3, 9, 2), L("lost", 3, 9, 2)}},
+		// uuid changes after establishment: the slow path finds the link by identity when the
+		// uuid entry is absent …
+		{"uuid-change", []op{start, L("est", 1, 7, 2), L("est", 2, 8, 3), {kind: "reuuid", id: 1, uuid: 31}, L("lost", 1, 31, 2)}},
+		// … and when the uuid entry is ANOTHER live link (which must survive, in both tables)
+		{"uuid-change", []op{start, L("est", 1, 7, 2), L("est", 2, 8, 3), {kind: "reuuid", id: 1, uuid: 8}, L("lost", 1, 8, 2), L("lost", 2, 8, 3)}},
+		{"uuid-change", []op{start, L("est", 1, 7, 2), L("est", 2, 8, 2), {kind: "reuuid", id: 1, uuid: 8}, L("lost", 1, 8, 2)}},
+		// … and a link whose uuid changed is still flushed on shutdown, and replaced under its stored uuid
+		{"uuid-change", []op{start, L("est", 1, 7, 2), {kind: "reuuid", id: 1, uuid: 31}, {kind: "shutdown"}, start, L("est", 2, 7, 2)}},
+		{"uuid-change", []op{start, L("est", 1, 7, 2), {kind: "reuuid", id: 1, uuid: 31}, L("est", 2, 7, 2), L("lost", 1, 31, 2)}},
+		// restart: the tables of the previous execution are gone, late losses of its links are no-ops
+		{"restart", []op{start, L("est", 1, 7, 2), L("est", 2, 8, 3), {kind: "shutdown"}, start, L("est", 11, 7, 2), L("lost", 1, 7, 2), L("lost", 2, 8, 3)}},
+		{"restart", []op{start, L("est", 1, 7, 2), {kind: "shutdown"}, L("est", 61, 7, 2), start, L("est", 11, 8, 2), {kind: "shutdown"}, start, L("est", 21, 8, 3)}},
+		// two transports on one bus: links from S1 and from S2 to the same remote peer, a link
+		// between the two local identities, self links of each
+		{"two-controllers", []op{start, startB, L("est", 1, 7, 2), LB("est", 11, 7, 2), L("est", 2, 8, peerB), LB("est", 12, 8, peerA), LB("est", 13, 9, peerB), L("est", 3, 9, peerA), LB("est", 14, 10, 3)}},
+		{"two-controllers", []op{startB, start, LB("est", 11, 7, 2), LB("est", 12, 8, 2), L("est", 1, 7, 3), LB("lost", 11, 7, 2), {kind: "shutdown", c: 1}}},
+		// concurrency sentinels (ungated: the goroutines leave a spin barrier together; gated: their
+		// first events pile up behind the held lock)
+		{"concurrent", []op{start, {kind: "batch", batch: [][]op{{L("est", 1, 7, 2)}, {L("est", 1, 7, 2)}, {L("est", 1, 7, 2)}}}}},
+		{"concurrent", []op{start, {kind: "batch", gate: true, batch: [][]op{{L("est", 1, 7, 2)}, {L("est", 1, 7, 2)}, {L("est", 1, 7, 2)}}}}},
+		{"concurrent", []op{start, L("est", 1, 7, 2), {kind: "batch", batch: [][]op{{L("est", 2, 7, 2)}, {L("est", 3, 7, 2)}, {L("lost", 1, 7, 2)}}}}},
+		{"concurrent", []op{start, L("est", 1, 7, 2), {kind: "batch", gate: true, batch: [][]op{{L("est", 2, 7, 2)}, {L("est", 3, 7, 2)}, {L("lost", 1, 7, 2)}}}}},
+		{"concurrent", []op{start, L("est", 1, 7, 2), L("est", 2, 8, 2), L("est", 3, 9, 2), {kind: "batch", gate: true, batch: [][]op{{L("lost", 1, 7, 2)}, {L("lost", 2, 8, 2)}, {L("lost", 3, 9, 2)}, {L("est", 4, 10, 2), L("est", 5, 11, 2)}}}}},
+		{"concurrent", []op{start, {kind: "batch", batch: [][]op{{L("est", 1, 7, 2), L("lost", 1, 7, 2)}, {L("est", 2, 7, 2), L("lost", 2, 7, 2)}, {L("est", 3, 8, 3)}}}}},
+		{"concurrent", []op{start, startB, {kind: "batch", gate: true, batch: [][]op{{L("est", 1, 7, 2), LB("est", 11, 7, 2)}, {LB("est", 12, 7, 2), L("est", 2, 7, 2)}}}}},
+		// many rounds of the duplicate-report race on one controller
+		{"concurrent", stress(40)},
+	}
+	for _, s := range sentinels {
+		e.runHistory(s.ops, s.gen)
 	}
 	// the known-finding witness (strict reading of "a lost link is never reported again")
-	e.runHistory([]op{{kind: "start", lp: 1}, {kind: "lost", id: 1, uuid: 7, rem: 2}, {kind: "est", id: 1, uuid: 7, rem: 2}}, "est-after-lost")
+	e.runHistory([]op{start, L("lost", 1, 7, 2), L("est", 1, 7, 2)}, "est-after-lost")
 	n := 40 * e.a.Scale
 	for i := 0; i < n; i++ {
 		mode := []int{0, 1, 1, 0, 3}[i%5]
 		ops, gen := e.genHistory(mode)
 		e.runHistory(ops, gen)
 	}
+	// the audited holes: mode 2, uuid change, restart, two controllers, concurrency
+	n2 := 60 * e.a.Scale
+	for i := 0; i < n2; i++ {
+		var ops []op
+		var gen string
+		switch []int{2, 4, 5, 6, 7, 7}[i%6] {
+		case 2:
+			ops, gen = e.genHistory(2)
+		case 4:
+			ops, gen = e.genUuidChange()
+		case 5:
+			ops, gen = e.genRestart()
+		case 6:
+			ops, gen = e.genTwo()
+		case 7:
+			ops, gen = e.genConcurrent()
+		}
+		e.runHistory(ops, gen)
+	}
+}
+
+// supervise runs the engine proper as a child process. Two things cannot be handled inside the
+// process that runs the real code: the race detector is configured through GORACE at process
+// start (log to a file, keep running: a race report becomes a disagreement of the history
+// during which it was written), and a fatal runtime error ("concurrent map read and map
+// write", deadlock) kills the process. If the child dies, the supervisor writes the report:
+// the history that was running is a confirmed failing input.
+func supervise(a *lib.Args) {
+	self, err := os.Executable()
+	if err != nil {
+		panic(err)
+	}
+	base := filepath.Join(os.TempDir(), fmt.Sprintf("verif-links-%d", os.Getpid()))
+	progress := base + ".progress"
+	defer os.Remove(progress)
+	cmd := exec.Command(self, os.Args[1:]...)
+	cmd.Env = append(os.Environ(), "VERIF_LINKS_CHILD=1", "VERIF_LINKS_PROGRESS="+progress)
+	if raceEnabled {
+		cmd.Env = append(cmd.Env, "GORACE=halt_on_error=0 exitcode=0 log_path="+base+".race", "VERIF_LINKS_RACELOG="+base+".race")
+	}
+	var tail tailBuf
+	cmd.Stdout = os.Stdout
+	cmd.Stderr = &tail
+	err = cmd.Run()
+	matches, _ := filepath.Glob(base + ".race.*")
+	for _, m := range matches {
+		os.Remove(m)
+	}
+	if err == nil {
+		return
+	}
+	// the child died
+	os.Stderr.Write(tail.buf)
+	hist := "(before the first history)"
+	if dat, rerr := os.ReadFile(progress); rerr == nil && len(dat) != 0 {
+		hist = string(dat)
+	}
+	what := "fatal error"
+	for _, ln := range strings.Split(string(tail.buf), "\n") {
+		if strings.HasPrefix(ln, "fatal error:") || strings.HasPrefix(ln, "panic:") {
+			what = strings.TrimSpace(ln)
+			break
+		}
+	}
+	inCtrl := strings.Contains(string(tail.buf), "bifrost/transport/controller")
+	rep := lib.NewReport("links", a)
+	rep.Rule = "engine process died"
+	mon := ""
+	if inCtrl {
+		mon = "the process running the real transport controller died (" + what + ", frames in transport/controller) while delivering the link events of history " + hist
+	}
+	rep.Compare("links.crash "+hist, "alive", "died: "+what, "crash", "links.conc:crash", mon)
+	rep.Notes = append(rep.Notes, "child stderr tail: "+lib.Trunc(string(tail.buf)))
+	rep.Write(a.Out)
+}
+
+// tailBuf keeps the first 64 KiB written to it.
+type tailBuf struct{ buf []byte }
+
+func (t *tailBuf) Write(p []byte) (int, error) {
+	if len(t.buf) < 64<<10 {
+		t.buf = append(t.buf, p...)
+	}
+	return len(p), nil
 }
 
 func main() {
 	a := lib.ParseArgs()
+	if os.Getenv("VERIF_LINKS_CHILD") == "" {
+		supervise(a)
+		return
+	}
 	lg := logrus.New()
 	lg.SetLevel(logrus.PanicLevel)
 	lg.SetOutput(io.Discard)
 	e := &engine{a: a, rng: lib.NewRng(a.Seed), m: lib.NewModel(a.Driver), le: logrus.NewEntry(lg)}
 	e.rep = lib.NewReport("links", a)
+	e.progress = os.Getenv("VERIF_LINKS_PROGRESS")
+	if p := os.Getenv("VERIF_LINKS_RACELOG"); p != "" {
+		e.raceLog = p + "." + strconv.Itoa(os.Getpid())
+	}
+	e.rep.Extra["race_detector"] = raceEnabled
+	transport_controller.VerifSetOpHook(e.onOp)
 	switch a.Prop {
 	case "C04", "C06":
 		e.run()
